@@ -63,7 +63,16 @@ Plans == <<
   \* joins that keep the labels of the many side (filtering comparisons) and include a label the many side already has
   [p |-> Join(M, N2, LAMBDA a, b : BinM(">", a, b, FALSE, "N:1", TRUE, <<"a">>, <<"Z">>)), dist |-> FALSE],
   [p |-> Join(N2, M, LAMBDA a, b : BinM("<", a, b, FALSE, "1:N", TRUE, <<"a">>, <<"Z">>)), dist |-> FALSE],
-  [p |-> Join(M, N2, LAMBDA a, b : BinM("!=", a, b, FALSE, "N:1", FALSE, <<"b", "Z">>, <<"Z">>)), dist |-> FALSE] >>
+  [p |-> Join(M, N2, LAMBDA a, b : BinM("!=", a, b, FALSE, "N:1", FALSE, <<"b", "Z">>, <<"Z">>)), dist |-> FALSE],
+  \* every operator kind below a consumer that asks for batches before it asks for the series (an aggregation without
+  \* grouping, scalar()): the operator's own start-up then happens inside Next()
+  [p |-> Over(Join(M, PS, LAMBDA a, b : Bin("/", a, b)), LAMBDA c : Agg("sum", TRUE, <<>>, <<c>>)), dist |-> FALSE],
+  [p |-> Over(Join(PS, M, LAMBDA a, b : Bin("-", a, b)), LAMBDA c : Agg("max", TRUE, <<>>, <<c>>)), dist |-> FALSE],
+  [p |-> Over(Join(M, PS, LAMBDA a, b : Fn("clamp_max", <<a, b>>)), LAMBDA c : Agg("min", TRUE, <<>>, <<c>>)), dist |-> FALSE],
+  [p |-> Over(Over(M, LAMBDA c : Fn("abs", <<c>>)), LAMBDA c : Agg("count", TRUE, <<>>, <<c>>)), dist |-> FALSE],
+  [p |-> Over(Join(M, N2, LAMBDA a, b : BinM("*", a, b, FALSE, "N:1", TRUE, <<"a">>, <<>>)), LAMBDA c : Agg("avg", TRUE, <<>>, <<c>>)), dist |-> FALSE],
+  [p |-> Over(Join(<<Sel(<<Metric("m"), Eq("a", "x"), Eq("b", "1")>>)>>, PS, LAMBDA a, b : Bin("*", a, b)), LAMBDA c : Fn("scalar", <<c>>)), dist |-> FALSE],
+  [p |-> Over(Over(LOT, LAMBDA c : NegN(c)), LAMBDA c : Agg("group", TRUE, <<>>, <<c>>)), dist |-> FALSE] >>
 
 VARIABLE g
 Init == g \in [p : 1..Len(Plans), win : {"instant", "range", "long"}, procs : IF Q THEN {2, 4} ELSE {2, 4, 8}, dist : {0, 1}, wide : BOOLEAN]
